@@ -68,10 +68,8 @@ func runC19(c *Ctx) {
 		okAsc := false
 		for _, cn := range conn {
 			if h := ir.LoopHeaderOf(cn.Block()); h != nil {
-				for _, in := range h.Instrs {
-					if phi, ok := in.(*ssa.Phi); ok && phi.Comment == "rangeindex" {
-						okAsc = true
-					}
+				if lf := loopFormOf(h); lf.problem == "" && lf.step == 1 {
+					okAsc = true
 				}
 			}
 		}
